@@ -309,9 +309,32 @@ def variants_b(tier):
     return out
 
 
+def dynamic_models(tier):
+    """Part C: the set of ready connections changes between two send_requests (DPR, loss, watchdog, reconnection)."""
+    from .. import monitors
+    cfg = {"node": {"ips": ["10.0.0.1"], "tcp_port": 3868, "cer_timeout": 9, "cea_timeout": 9, "idle_timeout": 2, "dwa_timeout": 2, "wakeup": 1},
+           "peers": [{"name": "peer1.example.org"}, {"name": "peer2.example.org"}, {"name": "peer3.example.org", "default": True}],
+           "apps": [{"id": 3, "acct": True, "peers": [0, 1]}, {"id": 5, "auth": True, "peers": []}]}
+    alpha = [("send", 0, "own"), ("send", 1, "own"), ("tick", 1)]
+    for c in (0, 1, 2):
+        alpha += [("m", c, "dpr"), ("eof", c), ("m", c, "dwa"), ("m", c, "dwr")]
+    alpha += [("accept",), ("m", 3, "cer_p0")]
+    mons = [monitors.RequestTargetMonitor, monitors.AnswerMonitor]
+    pre = [("accept",), ("m", 0, "cer_p0"), ("accept",), ("m", 1, "cer_p1"), ("accept",), ("m", 2, "cer_p2")]
+    out = [monitors.ScenarioModel("three-ready-peers-changing-state", cfg, alpha, mons, max_socks=4, prelude=pre, app_timeout=1)]
+    import copy
+    cb = copy.deepcopy(cfg)
+    cb["node"]["select"] = "last"
+    return out
+
+
 def run(tier):
     rep = Report("C10", tier, "model_checking")
     common.pool()
+    from .. import monitors
+    totc = monitors.run_models(rep, dynamic_models(tier), 5 if tier == "thorough" else 4, dedup_depth_plain=2, time_cap=900 if tier == "thorough" else 100)
+    rep.cov["part_C_states"] = totc["states"]
+    rep.cov["part_C_transitions"] = totc["transitions"]
     # part A
     jobs = []
     state_vectors = list(itertools.product(STATES, repeat=3))
@@ -340,12 +363,15 @@ def run(tier):
                               {"variant": [list(v[0]), v[1], v[2]], "choices": choices}))
         rep.sample({"part": "B", "callers(apps)": v[0], "answer_script": v[1], "equal_generator_start": v[2], "preemption_bound": b,
                     "executions": r["executions"], "distinct_outcomes": len(r["outcomes"]), "branching_points": r["max_points"]}, 30)
-    rep.cov.update({"states": len(jobs) + execs, "transitions": total + execs, "traces_validated_against_impl": len(jobs) + execs,
+    rep.cov.update({"states": len(jobs) + execs + totc["states"], "transitions": total + execs + totc["transitions"],
+                    "traces_validated_against_impl": len(jobs) + execs + totc["transitions"],
                     "schedules": execs, "configurations": len(jobs), "distinct_outcomes_total": outcomes,
                     "explanation": "A: every vector of 3 peers x {none, connected, ready, waiting DWA, disconnecting} x 4 default-peer patterns x {least-used, custom "
                                    "callback} (quick: callback on a VERIF_SEED-rotated half), 9 send_requests (3 applications x 3 realms) each, judged against "
                                    "eligibility computed from the configuration. B: 2..3 concurrent send_request callers, answers forward/reverse, duplicated, "
-                                   "late, unknown ids, on the wrong connection; every schedule within the preemption bound at line granularity"})
+                                   "late, unknown ids, on the wrong connection; every schedule within the preemption bound at line granularity. C: BFS over histories in which "
+                                   "three ready peers receive DPR / are lost / await a DWA / reconnect between send_requests; every request written must target a "
+                                   "connection that is ready at that moment and eligible"})
     rep.assumptions += ["configured-but-unready peers with a ready default peer: either outcome accepted"]
     return rep.finish()
 
